@@ -452,6 +452,11 @@ pub trait Vec1View<T>: TIter<T> {
         V2: Vec1View<T2>,
         F: FnMut(Self::SliceOutput<'_>, V2::SliceOutput<'_>) -> OT,
     {
+        // the second series is sliced with unchecked ranges taken from the first one
+        assert!(
+            other.len() >= self.len(),
+            "the second series is shorter than the first one"
+        );
         let iter = (1..self.len() + 1)
             .zip(std::iter::repeat_n(0, window - 1).chain(0..self.len()))
             .map(|(end, start)| unsafe {
@@ -687,6 +692,11 @@ pub trait Vec1View<T>: TIter<T> {
         F: FnMut(Option<(T, T2)>, (T, T2)) -> OT,
     {
         let len = self.len();
+        // the second series is read with unchecked accesses at the same positions
+        assert!(
+            other.len() >= len,
+            "the second series is shorter than the first one"
+        );
         // an empty input has nothing to write; otherwise every slot of `out` must be written,
         // which a zero window cannot do
         assert!(window > 0 || len == 0, "window must be greater than 0");
@@ -925,6 +935,11 @@ pub trait Vec1View<T>: TIter<T> {
         F: FnMut(Option<usize>, usize, (T, T2)) -> OT,
     {
         let len = self.len();
+        // the second series is read with unchecked accesses at the same positions
+        assert!(
+            other.len() >= len,
+            "the second series is shorter than the first one"
+        );
         // an empty input has nothing to write; otherwise every slot of `out` must be written,
         // which a zero window cannot do
         assert!(window > 0 || len == 0, "window must be greater than 0");
